@@ -1,8 +1,544 @@
 import E3fpVerif.Model.Metrics
+import E3fpVerif.Lemmas.MergeSD
+import E3fpVerif.Lemmas.Binary
+import E3fpVerif.Lemmas.Dense
+import E3fpVerif.Lemmas.FpRows
+/-!
+# C06 — similarity measures equal their definitions in every representation
+
+Helper lemmas live in `Lemmas/MergeSD.lean` (merge kernel, `sortRow`, `soergelDef` with an empty
+operand), `Lemmas/Binary.lean` (indicator sums, intersection counts, 0/1 rows), `Lemmas/Dense.lean`
+(the dense Soergel loop) and `Lemmas/FpRows.lean` (count dictionaries as rows); all in namespace
+`E3fpVerif.C06L`.
+-/
 namespace E3fpVerif.Props.C06
-open E3fpVerif
+open E3fpVerif E3fpVerif.C06L
 
 /-- a zero denominator scores 0 (never NaN, never an error) in the generated ratio expressions -/
 theorem divNan_zero (a : Rat) : Gen.divNan a 0 = 0 := by simp [Gen.divNan]
+
+/-! ## 1. the sparse Soergel merge kernel -/
+
+/-- recursive specification (see `C06L.mergeSD_spec_rec`): on rows with strictly ascending columns
+and non-negative values, `mergeSD x y = (Σ_{i∈cols} |x_i − y_i|, Σ_{i∈cols} max x_i y_i)`, `cols` the
+merge of the two column lists -/
+theorem mergeSD_spec_rec (x y : Row) (hx : SortedRow x) (hy : SortedRow y)
+    (nx : NonnegRow x) (ny : NonnegRow y) :
+    mergeSD x y = (colSumAbs x y (mergeCols (x.map Prod.fst) (y.map Prod.fst)),
+                   colSumMax x y (mergeCols (x.map Prod.fst) (y.map Prod.fst))) :=
+  C06L.mergeSD_spec_rec x y hx hy nx ny
+
+/-- the merged column list is `unionCols` -/
+theorem unionCols_eq_mergeCols (x y : Row) (hx : SortedRow x) (hy : SortedRow y) :
+    unionCols x y = mergeCols (x.map Prod.fst) (y.map Prod.fst) :=
+  C06L.unionCols_eq_mergeCols x y hx hy
+
+/-- **`mergeSD_spec`** -/
+theorem mergeSD_spec (x y : Row)
+    (hx : (x.map Prod.fst).Pairwise (· < ·)) (hy : (y.map Prod.fst).Pairwise (· < ·))
+    (nx : ∀ p ∈ x, 0 ≤ p.2) (ny : ∀ p ∈ y, 0 ≤ p.2) :
+    (mergeSD x y).1 = sumQ ((unionCols x y).map (fun i => absQ (rowVal x i - rowVal y i))) ∧
+    (mergeSD x y).2 = sumQ ((unionCols x y).map (fun i => maxQ (rowVal x i) (rowVal y i))) :=
+  C06L.mergeSD_spec x y hx hy nx ny
+
+example : mergeSD [(0, 2), (3, 1)] [(3, 4), (5, 1)] = (6, 7) := by
+  have h := mergeSD_spec [(0, 2), (3, 1)] [(3, 4), (5, 1)] (by decide) (by decide)
+    (by intro p hp; simp at hp; rcases hp with rfl | rfl <;> grind)
+    (by intro p hp; simp at hp; rcases hp with rfl | rfl <;> grind)
+  simp [mergeSD]; grind
+
+/-- The non-negativity hypothesis cannot be dropped: the kernel adds an unmatched value as it stands,
+the definition takes its absolute value.  (The implementation is only meant for count matrices.) -/
+theorem mergeSD_spec_false_for_negative :
+    ¬ ((mergeSD [] [(0, -1)]).1
+        = sumQ ((unionCols [] [(0, -1)]).map (fun i => absQ (rowVal [] i - rowVal [(0, -1)] i)))) := by
+  simp [mergeSD, unionCols, uniq, insertU, sumQ, rowVal, lookupQ, absQ]
+  grind
+
+/-- sorting a row that is already sorted is the identity -/
+theorem sortRow_of_sorted (r : Row) (h : (r.map Prod.fst).Pairwise (· < ·)) : sortRow r = r :=
+  C06L.sortRow_of_sorted r h
+
+example : sortRow [(0, 2), (3, 1)] = [(0, 2), (3, 1)] := sortRow_of_sorted _ (by decide)
+
+/-- **sparse Soergel = definition** on non-empty sorted duplicate-free non-negative rows -/
+theorem arrSoergelSparse_eq_def (x y : Row) (ex : x ≠ []) (ey : y ≠ [])
+    (hx : SortedRow x) (hy : SortedRow y) (nx : NonnegRow x) (ny : NonnegRow y) :
+    arrSoergelSparse x y = soergelDef x y := by
+  unfold arrSoergelSparse
+  rw [if_neg (by simp [ex, ey]), C06L.sortRow_of_sorted x hx, C06L.sortRow_of_sorted y hy,
+    soergelDef_eq]
+  have h := C06L.mergeSD_spec x y hx hy nx ny
+  simp only [h.1, h.2]
+  rfl
+
+example : arrSoergelSparse [(0, 2), (3, 1)] [(3, 4), (5, 1)] = soergelDef [(0, 2), (3, 1)] [(3, 4), (5, 1)] :=
+  arrSoergelSparse_eq_def _ _ (by simp) (by simp) (by decide) (by decide)
+    (by intro p hp; simp at hp; rcases hp with rfl | rfl <;> grind)
+    (by intro p hp; simp at hp; rcases hp with rfl | rfl <;> grind)
+
+/-- with an empty operand the definition is 0 when the values are non-negative … -/
+theorem soergelDef_nil_left (y : Row) (ny : ∀ p ∈ y, 0 ≤ p.2) : soergelDef [] y = 0 :=
+  C06L.soergelDef_nil_left y ny
+theorem soergelDef_nil_right (x : Row) (nx : ∀ p ∈ x, 0 ≤ p.2) : soergelDef x [] = 0 :=
+  C06L.soergelDef_nil_right x nx
+/-- … and so is the sparse route, unconditionally -/
+theorem arrSoergelSparse_nil_left (y : Row) : arrSoergelSparse [] y = 0 := by simp [arrSoergelSparse]
+theorem arrSoergelSparse_nil_right (x : Row) : arrSoergelSparse x [] = 0 := by simp [arrSoergelSparse]
+
+/-- sparse Soergel = definition on all sorted duplicate-free non-negative rows, empty or not -/
+theorem arrSoergelSparse_eq_def_all (x y : Row)
+    (hx : SortedRow x) (hy : SortedRow y) (nx : NonnegRow x) (ny : NonnegRow y) :
+    arrSoergelSparse x y = soergelDef x y := by
+  by_cases ex : x = []
+  · subst ex; rw [arrSoergelSparse_nil_left, C06L.soergelDef_nil_left y ny]
+  · by_cases ey : y = []
+    · subst ey; rw [arrSoergelSparse_nil_right, C06L.soergelDef_nil_right x nx]
+    · exact arrSoergelSparse_eq_def x y ex ey hx hy nx ny
+
+/-! ## 2. symmetry -/
+
+theorem mergeSD_symm (x y : Row) : mergeSD x y = mergeSD y x := C06L.mergeSD_symm x y
+
+theorem unionCols_symm (x y : Row) : unionCols x y = unionCols y x := unionCols_comm x y
+
+theorem soergelDef_symm (x y : Row) : soergelDef x y = soergelDef y x := C06L.soergelDef_symm x y
+
+theorem arrSoergelSparse_symm (x y : Row) : arrSoergelSparse x y = arrSoergelSparse y x := by
+  unfold arrSoergelSparse
+  rw [C06L.mergeSD_symm (sortRow x) (sortRow y)]
+  by_cases h : x = [] ∨ y = []
+  · rw [if_pos h, if_pos (Or.symm h)]
+  · rw [if_neg h, if_neg (fun h' => h (Or.symm h'))]
+
+theorem strictAsc_rowSupport (x : Row) : StrictAsc (rowSupport x) :=
+  strictAsc_filter (strictAsc_rowCols x) _
+
+theorem tanimotoDef_symm (x y : Row) : tanimotoDef x y = tanimotoDef y x := by
+  unfold tanimotoDef
+  simp only [interCount_comm _ _ (strictAsc_rowSupport x) (strictAsc_rowSupport y),
+    Nat.add_comm (rowSupport x).length]
+
+theorem diceDef_symm (x y : Row) : diceDef x y = diceDef y x := by
+  unfold diceDef
+  simp only [interCount_comm _ _ (strictAsc_rowSupport x) (strictAsc_rowSupport y),
+    Nat.add_comm (rowSupport x).length]
+
+theorem dotQ_symm (x y : Row) : dotQ x y = dotQ y x := by
+  unfold dotQ
+  rw [unionCols_comm x y]
+  congr 1
+  exact List.map_congr_left (fun k _ => Rat.mul_comm _ _)
+
+theorem cosineDef_symm (x y : Row) :
+    (cosineDef x y).1 = (cosineDef y x).1 ∧ (cosineDef x y).2 = (cosineDef y x).2 := by
+  unfold cosineDef
+  exact ⟨dotQ_symm x y, Rat.mul_comm _ _⟩
+
+theorem pearsonDef_symm (b : Nat) (x y : Row) : pearsonDef b x y = pearsonDef b y x := by
+  unfold pearsonDef
+  simp only [dotQ_symm x y]
+  refine Prod.ext ?_ ?_ <;> simp only <;> grind
+
+theorem arrPearson_symm (b : Nat) (x y : Row) : arrPearson b x y = arrPearson b y x := by
+  unfold arrPearson
+  simp only [dotQ_symm x y]
+  refine Prod.ext ?_ ?_ <;> simp only <;> grind
+
+/-! ## 3. fingerprint Tanimoto / Dice: symmetry, range, self-similarity, empty operands -/
+
+theorem fpTanimoto_symm (f g : Fp) (hf : StrictAsc f.idx) (hg : StrictAsc g.idx) :
+    fpTanimoto f g = fpTanimoto g f := by
+  unfold fpTanimoto Gen.fpTanimotoExpr
+  rw [interCount_comm _ _ hf hg, Rat.add_comm]
+
+theorem fpDice_symm (f g : Fp) (hf : StrictAsc f.idx) (hg : StrictAsc g.idx) :
+    fpDice f g = fpDice g f := by
+  unfold fpDice Gen.fpDiceExpr
+  rw [interCount_comm _ _ hf hg, Rat.add_comm]
+
+example : fpTanimoto ⟨.bit, 8, 0, [1, 2], []⟩ ⟨.bit, 8, 0, [2, 5], []⟩
+    = fpTanimoto ⟨.bit, 8, 0, [2, 5], []⟩ ⟨.bit, 8, 0, [1, 2], []⟩ :=
+  fpTanimoto_symm _ _ (by decide) (by decide)
+
+/-- `nan_to_num(a / b)` lies in `[0, 1]` whenever `0 ≤ a ≤ b` -/
+theorem divNan_range (a b : Rat) (h0 : 0 ≤ a) (h : a ≤ b) :
+    0 ≤ Gen.divNan a b ∧ Gen.divNan a b ≤ 1 := by
+  unfold Gen.divNan
+  by_cases hb : b = 0
+  · rw [if_pos hb]; grind
+  · rw [if_neg hb]
+    have hpos : 0 < b := by grind
+    constructor
+    · rw [Rat.div_def]
+      exact Rat.mul_nonneg h0 (Rat.le_of_lt (Rat.inv_pos.2 hpos))
+    · apply Rat.not_lt.1
+      intro hlt
+      have := (Rat.lt_div_iff hpos).1 hlt
+      grind
+
+theorem fpTanimoto_range (f g : Fp) (hf : StrictAsc f.idx) (hg : StrictAsc g.idx) :
+    0 ≤ fpTanimoto f g ∧ fpTanimoto f g ≤ 1 := by
+  unfold fpTanimoto Gen.fpTanimotoExpr
+  have h1 : interCount f.idx g.idx ≤ f.idx.length := interCount_le_left _ _
+  have h2 : interCount f.idx g.idx ≤ g.idx.length := interCount_le_right _ _ hf hg
+  have h1' := Rat.natCast_le_natCast.2 h1
+  have h2' := Rat.natCast_le_natCast.2 h2
+  have h0 : (0 : Rat) ≤ (interCount f.idx g.idx : Nat) := Rat.natCast_nonneg
+  apply divNan_range _ _ h0
+  grind
+
+example : 0 ≤ fpTanimoto ⟨.bit, 8, 0, [1, 2], []⟩ ⟨.bit, 8, 0, [2, 5], []⟩ ∧
+    fpTanimoto ⟨.bit, 8, 0, [1, 2], []⟩ ⟨.bit, 8, 0, [2, 5], []⟩ ≤ 1 :=
+  fpTanimoto_range _ _ (by decide) (by decide)
+
+theorem fpDice_range (f g : Fp) (hf : StrictAsc f.idx) (hg : StrictAsc g.idx) :
+    0 ≤ fpDice f g ∧ fpDice f g ≤ 1 := by
+  unfold fpDice Gen.fpDiceExpr
+  have h1 : interCount f.idx g.idx ≤ f.idx.length := interCount_le_left _ _
+  have h2 : interCount f.idx g.idx ≤ g.idx.length := interCount_le_right _ _ hf hg
+  have h1' := Rat.natCast_le_natCast.2 h1
+  have h2' := Rat.natCast_le_natCast.2 h2
+  have h0 : (0 : Rat) ≤ (interCount f.idx g.idx : Nat) := Rat.natCast_nonneg
+  apply divNan_range <;> grind
+
+/-- self-similarity (only non-emptiness is needed) -/
+theorem fpTanimoto_self (f : Fp) (h : f.idx ≠ []) : fpTanimoto f f = 1 := by
+  unfold fpTanimoto Gen.fpTanimotoExpr Gen.divNan
+  rw [interCount_self]
+  have : f.idx.length ≠ 0 := by simpa using h
+  have : (f.idx.length : Rat) ≠ 0 := by simpa using h
+  grind
+
+theorem fpDice_self (f : Fp) (h : f.idx ≠ []) : fpDice f f = 1 := by
+  unfold fpDice Gen.fpDiceExpr Gen.divNan
+  rw [interCount_self]
+  have : (f.idx.length : Rat) ≠ 0 := by simpa using h
+  grind
+
+example : fpTanimoto ⟨.bit, 8, 0, [1, 2], []⟩ ⟨.bit, 8, 0, [1, 2], []⟩ = 1 :=
+  fpTanimoto_self _ (by simp)
+
+/-- all fingerprint measures are 0 (numerator and radicand 0 for the two root measures) when both
+operands are empty -/
+theorem zero_is_zero (f g : Fp) (hf : f.idx = []) (hg : g.idx = []) :
+    fpTanimoto f g = 0 ∧ fpDice f g = 0 ∧ fpSoergel f g = 0 ∧
+    fpCosine f g = (0, 0) ∧ fpPearson f g = (0, 0) := by
+  have hT : fpTanimoto f g = 0 := by
+    simp [fpTanimoto, Gen.fpTanimotoExpr, Gen.divNan, interCount, hf, hg]; grind
+  refine ⟨hT, ?_, ?_, ?_, ?_⟩
+  · simp [fpDice, Gen.fpDiceExpr, Gen.divNan, interCount, hf, hg]; grind
+  · unfold fpSoergel
+    split
+    · exact hT
+    · simp [hf, hg, uniq]
+  · simp [fpCosine, fpDot, fpSq, hf, hg, sumQ]
+  · simp [fpPearson, fpDot, fpSq, fpSumC, hf, hg, sumQ]; grind
+
+/-- the same for the matrix measures and the definitions on two empty rows -/
+theorem zero_is_zero_rows :
+    arrTanimoto [] [] = 0 ∧ arrDice [] [] = 0 ∧ arrSoergelSparse [] [] = 0 ∧
+    arrSoergelDense [] [] = 0 ∧ arrCosine [] [] = (0, 0) ∧
+    tanimotoDef [] [] = 0 ∧ diceDef [] [] = 0 ∧ soergelDef [] [] = 0 ∧ cosineDef [] [] = (0, 0) := by
+  have hd : dotQ [] [] = 0 := by simp [dotQ, unionCols, uniq, sumQ]
+  have hs : rowSum [] = 0 := by simp [rowSum, rowCols, uniq, sumQ]
+  refine ⟨?_, ?_, ?_, ?_, ?_, ?_, ?_, ?_, ?_⟩
+  · simp [arrTanimoto, Gen.arrTanimotoExpr, Gen.divNan, hd, hs]; grind
+  · simp [arrDice, Gen.arrDiceExpr, Gen.divNan, hd, hs]; grind
+  · simp [arrSoergelSparse]
+  · simp [arrSoergelDense]
+  · simp [arrCosine, hd]
+  · simp [tanimotoDef, divNan, rowSupport, rowCols, uniq, interCount]
+  · simp [diceDef, divNan, rowSupport, rowCols, uniq]
+  · exact C06L.soergelDef_nil_left [] (fun p hp => by cases hp)
+  · simp [cosineDef, hd]
+
+/-! ## 4. Soergel on bit rows is Tanimoto -/
+
+/-- on rows whose stored values are all 1 the Soergel definition is the Tanimoto definition
+(sortedness of the columns is not needed: the definitions work on `uniq` of the columns) -/
+theorem soergel_binary (x y : Row) (hx : BinaryRow x) (hy : BinaryRow y) :
+    soergelDef x y = tanimotoDef x y := by
+  rw [soergelDef_eq, colSumMax_binary x y hx hy, colSumAbs_binary x y hx hy,
+    tanimotoDef_binary x y hx hy]
+  unfold Gen.fpTanimotoExpr Gen.divNan
+  split <;> grind
+
+example : soergelDef [(1, 1), (2, 1)] [(2, 1), (5, 1)] = tanimotoDef [(1, 1), (2, 1)] [(2, 1), (5, 1)] :=
+  soergel_binary _ _ (by intro p hp; simp at hp; rcases hp with rfl | rfl <;> rfl)
+    (by intro p hp; simp at hp; rcases hp with rfl | rfl <;> rfl)
+
+/-! ## 5. fingerprint Tanimoto = definition on the rows of the fingerprints -/
+
+/-- the matrix row of a bit fingerprint -/
+def bitRow (f : Fp) : Row := f.idx.map (fun i => (i, (1 : Rat)))
+
+theorem binaryRow_bitRow (f : Fp) : BinaryRow (bitRow f) := by
+  intro p hp
+  unfold bitRow at hp
+  obtain ⟨i, _, rfl⟩ := List.mem_map.1 hp
+  rfl
+
+theorem rowCols_bitRow (f : Fp) (h : StrictAsc f.idx) : rowCols (bitRow f) = f.idx := by
+  unfold rowCols bitRow
+  rw [List.map_map]
+  have : (Prod.fst ∘ fun i : Nat => (i, (1 : Rat))) = id := rfl
+  rw [this, List.map_id, uniq_of_strictAsc _ h]
+
+theorem fp_eq_def_tanimoto (f g : Fp) (hf : f.WF) (hg : g.WF) :
+    fpTanimoto f g = tanimotoDef (bitRow f) (bitRow g) := by
+  rw [tanimotoDef_binary _ _ (binaryRow_bitRow f) (binaryRow_bitRow g),
+    rowCols_bitRow f hf.1, rowCols_bitRow g hg.1]
+  rfl
+
+theorem diceDef_binary (x y : Row) (hx : BinaryRow x) (hy : BinaryRow y) :
+    diceDef x y = Gen.fpDiceExpr (interCount (rowCols x) (rowCols y))
+      (rowCols x).length (rowCols y).length := by
+  unfold diceDef Gen.fpDiceExpr divNan Gen.divNan
+  simp only [rowSupport_binary x hx, rowSupport_binary y hy, Rat.natCast_add]
+
+theorem fp_eq_def_dice (f g : Fp) (hf : f.WF) (hg : g.WF) :
+    fpDice f g = diceDef (bitRow f) (bitRow g) := by
+  rw [diceDef_binary _ _ (binaryRow_bitRow f) (binaryRow_bitRow g),
+    rowCols_bitRow f hf.1, rowCols_bitRow g hg.1]
+  rfl
+
+/-- bit fingerprints: `fpSoergel` is the Soergel definition on the rows as well -/
+theorem fp_eq_def_soergel_bit (f g : Fp) (hf : f.WF) (hg : g.WF)
+    (kf : f.kind = .bit) (kg : g.kind = .bit) :
+    fpSoergel f g = soergelDef (bitRow f) (bitRow g) := by
+  unfold fpSoergel
+  rw [if_pos ⟨kf, kg⟩, soergel_binary _ _ (binaryRow_bitRow f) (binaryRow_bitRow g)]
+  exact fp_eq_def_tanimoto f g hf hg
+
+theorem wf_example_bit (l : List Nat) (h1 : StrictAsc l) (h2 : ∀ i ∈ l, i < 8) :
+    Fp.WF ⟨.bit, 8, 0, l, []⟩ :=
+  ⟨h1, h2, fun _ => rfl, fun h => absurd rfl h⟩
+
+example : fpTanimoto ⟨.bit, 8, 0, [1, 2], []⟩ ⟨.bit, 8, 0, [2, 5], []⟩
+    = tanimotoDef (bitRow ⟨.bit, 8, 0, [1, 2], []⟩) (bitRow ⟨.bit, 8, 0, [2, 5], []⟩) :=
+  fp_eq_def_tanimoto _ _ (wf_example_bit _ (by decide) (by decide)) (wf_example_bit _ (by decide) (by decide))
+
+/-! ## 6. matrix Tanimoto / Dice = definition on bit rows -/
+
+/-- `X·Yᵀ = |X ∩ Y|` and row sum `= |X|` on bit rows -/
+theorem dotQ_binary (x y : Row) (hx : BinaryRow x) (hy : BinaryRow y) :
+    dotQ x y = (interCount (rowSupport x) (rowSupport y) : Nat) := by
+  rw [rowSupport_binary x hx, rowSupport_binary y hy]; exact C06L.dotQ_binary x y hx hy
+
+theorem rowSum_binary (x : Row) (hx : BinaryRow x) : rowSum x = ((rowSupport x).length : Nat) := by
+  rw [rowSupport_binary x hx]; exact C06L.rowSum_binary x hx
+
+theorem arrTanimoto_eq_def (x y : Row) (hx : BinaryRow x) (hy : BinaryRow y) :
+    arrTanimoto x y = tanimotoDef x y := by
+  rw [tanimotoDef_binary x y hx hy]
+  unfold arrTanimoto
+  rw [C06L.dotQ_binary x y hx hy, C06L.rowSum_binary x hx, C06L.rowSum_binary y hy]
+  rfl
+
+theorem arrDice_eq_def (x y : Row) (hx : BinaryRow x) (hy : BinaryRow y) :
+    arrDice x y = diceDef x y := by
+  rw [diceDef_binary x y hx hy]
+  unfold arrDice
+  rw [C06L.dotQ_binary x y hx hy, C06L.rowSum_binary x hx, C06L.rowSum_binary y hy]
+  rfl
+
+example : arrTanimoto [(1, 1), (2, 1)] [(2, 1), (5, 1)] = tanimotoDef [(1, 1), (2, 1)] [(2, 1), (5, 1)] :=
+  arrTanimoto_eq_def _ _ (by intro p hp; simp at hp; rcases hp with rfl | rfl <;> rfl)
+    (by intro p hp; simp at hp; rcases hp with rfl | rfl <;> rfl)
+
+/-- all three routes agree on bit fingerprints -/
+theorem tanimoto_three_routes (f g : Fp) (hf : f.WF) (hg : g.WF) :
+    fpTanimoto f g = arrTanimoto (bitRow f) (bitRow g) ∧
+    arrTanimoto (bitRow f) (bitRow g) = tanimotoDef (bitRow f) (bitRow g) := by
+  have h := arrTanimoto_eq_def _ _ (binaryRow_bitRow f) (binaryRow_bitRow g)
+  exact ⟨(fp_eq_def_tanimoto f g hf hg).trans h.symm, h⟩
+
+/-! ## 7. self-similarity -/
+
+theorem colSumAbs_self (x : Row) (cols : List Nat) : colSumAbs x x cols = 0 := by
+  unfold colSumAbs
+  have e : cols.map (fun i => absQ (rowVal x i - rowVal x i)) = cols.map (fun _ => (0 : Rat)) :=
+    List.map_congr_left (fun k _ => absQ_self _)
+  rw [e, sumQ_map_zero]
+
+/-- Soergel self-similarity is 1 for a non-negative row with a positive entry -/
+theorem soergelDef_self_one (x : Row) (nx : NonnegRow x) (k : Nat) (hk : 0 < rowVal x k) :
+    soergelDef x x = 1 := by
+  rw [soergelDef_eq, colSumAbs_self]
+  have hmem : k ∈ unionCols x x := by
+    apply Classical.byContradiction
+    intro hn
+    have : k ∉ x.map Prod.fst := by
+      intro h; apply hn; unfold unionCols; rw [mem_uniq]; exact List.mem_append_left _ h
+    rw [rowVal_of_not_mem x k this] at hk
+    exact Rat.lt_irrefl hk
+  have hpos : 0 < colSumMax x x (unionCols x x) := by
+    unfold colSumMax
+    apply sumQ_map_pos _ _ _ k hmem
+    · rw [maxQ_self]; exact hk
+    · intro a _; rw [maxQ_self]; exact rowVal_nonneg x nx a
+  rw [if_neg (Rat.ne_of_gt hpos)]
+  grind
+
+theorem rowVal_of_mem_sorted (r : Row) (h : SortedRow r) (p : Nat × Rat) (hp : p ∈ r) :
+    rowVal r p.1 = p.2 := by
+  induction r with
+  | nil => cases hp
+  | cons q qs ih =>
+    obtain ⟨j, w⟩ := q
+    rcases List.mem_cons.1 hp with rfl | hp'
+    · exact rowVal_cons_self _ _ _
+    · have := h.head_lt p.1 (List.mem_map_of_mem hp')
+      rw [rowVal_cons_ne j p.1 w qs (by simp only at this; omega)]
+      exact ih h.tail hp'
+
+/-- the same for a sorted duplicate-free row with a positive stored value; both routes -/
+theorem self_one (x : Row) (hx : SortedRow x) (nx : NonnegRow x) (p : Nat × Rat) (hp : p ∈ x)
+    (hpos : 0 < p.2) : soergelDef x x = 1 ∧ arrSoergelSparse x x = 1 := by
+  have h : soergelDef x x = 1 :=
+    soergelDef_self_one x nx p.1 (by rw [rowVal_of_mem_sorted x hx p hp]; exact hpos)
+  refine ⟨h, ?_⟩
+  rw [arrSoergelSparse_eq_def_all x x hx hx nx nx, h]
+
+example : soergelDef [(0, 2), (3, 1)] [(0, 2), (3, 1)] = 1 ∧ arrSoergelSparse [(0, 2), (3, 1)] [(0, 2), (3, 1)] = 1 :=
+  self_one _ (by decide) (by intro p hp; simp at hp; rcases hp with rfl | rfl <;> grind)
+    (0, 2) (by simp) (by grind)
+
+/-- cosine self-similarity: `num² = rad`, i.e. `num / sqrt rad = 1` when `num > 0` -/
+theorem cosine_self (x : Row) : (cosineDef x x).1 ^ 2 = (cosineDef x x).2 ∧ 0 ≤ (cosineDef x x).1 := by
+  unfold cosineDef
+  refine ⟨by grind, ?_⟩
+  unfold dotQ
+  apply sumQ_map_nonneg
+  intro a _
+  have := Rat.nonneg_total (rowVal x a)
+  rcases this with h | h
+  · exact Rat.mul_nonneg h h
+  · have := Rat.mul_nonneg h h; grind
+
+/-! ## 8. the two Pearson normalisations give the same ratio -/
+
+/-- `num² / rad` is the same with the `b − 1` (sparse route) and the `b` (definition) normalisation -/
+theorem pearson_routes_agree (b : Nat) (hb : 2 ≤ b) (x y : Row) :
+    (arrPearson b x y).1 ^ 2 * (pearsonDef b x y).2 = (pearsonDef b x y).1 ^ 2 * (arrPearson b x y).2 := by
+  have h0 : (b : Rat) ≠ 0 := by
+    intro h; have := Rat.natCast_eq_zero_iff.1 h; omega
+  have h1 : (b : Rat) - 1 ≠ 0 := by
+    intro h
+    have : (b : Rat) = ((1 : Nat) : Rat) := by simp; grind
+    have := Rat.natCast_inj.1 this; omega
+  unfold arrPearson pearsonDef
+  simp only
+  generalize dotQ x y = dxy
+  generalize dotQ x x = dxx
+  generalize dotQ y y = dyy
+  generalize rowSum x = sx
+  generalize rowSum y = sy
+  generalize (b : Rat) = n at *
+  grind
+
+/-- and the signs of the numerators agree, so the two correlation values are equal -/
+theorem pearson_num_sign (b : Nat) (hb : 2 ≤ b) (x y : Row) :
+    (arrPearson b x y).1 = (pearsonDef b x y).1 * ((b : Rat) / ((b : Rat) - 1)) := by
+  have h0 : (b : Rat) ≠ 0 := by
+    intro h; have := Rat.natCast_eq_zero_iff.1 h; omega
+  have h1 : (b : Rat) - 1 ≠ 0 := by
+    intro h
+    have : (b : Rat) = ((1 : Nat) : Rat) := by simp; grind
+    have := Rat.natCast_inj.1 this; omega
+  unfold arrPearson pearsonDef
+  simp only
+  generalize (b : Rat) = n at *
+  grind
+
+example : (arrPearson 4 [(0, 2), (3, 1)] [(3, 4)]).1 ^ 2 * (pearsonDef 4 [(0, 2), (3, 1)] [(3, 4)]).2
+    = (pearsonDef 4 [(0, 2), (3, 1)] [(3, 4)]).1 ^ 2 * (arrPearson 4 [(0, 2), (3, 1)] [(3, 4)]).2 :=
+  pearson_routes_agree 4 (by decide) _ _
+
+/-! ## 9. further routes: dense Soergel, and the count-dictionary measures -/
+
+/-- the dense double loop equals the definition on the dense forms of two rows (any sign, any order,
+duplicates resolved by first entry as in `rowVal`) -/
+theorem arrSoergelDense_eq_def (b : Nat) (x y : Row)
+    (hx : ∀ p ∈ x, p.1 < b) (hy : ∀ p ∈ y, p.1 < b) :
+    arrSoergelDense ((List.range b).map (rowVal x)) ((List.range b).map (rowVal y)) = soergelDef x y :=
+  C06L.arrSoergelDense_eq_def b x y hx hy
+
+/-- dense and sparse Soergel routes agree on sorted duplicate-free non-negative rows -/
+theorem soergel_dense_sparse_agree (b : Nat) (x y : Row)
+    (hx : SortedRow x) (hy : SortedRow y) (nx : NonnegRow x) (ny : NonnegRow y)
+    (bx : ∀ p ∈ x, p.1 < b) (bY : ∀ p ∈ y, p.1 < b) :
+    arrSoergelDense ((List.range b).map (rowVal x)) ((List.range b).map (rowVal y))
+      = arrSoergelSparse x y := by
+  rw [arrSoergelDense_eq_def b x y bx bY, arrSoergelSparse_eq_def_all x y hx hy nx ny]
+
+example : arrSoergelDense ((List.range 6).map (rowVal [(0, 2), (3, 1)])) ((List.range 6).map (rowVal [(3, 4), (5, 1)]))
+    = arrSoergelSparse [(0, 2), (3, 1)] [(3, 4), (5, 1)] :=
+  soergel_dense_sparse_agree 6 _ _ (by decide) (by decide)
+    (by intro p hp; simp at hp; rcases hp with rfl | rfl <;> grind)
+    (by intro p hp; simp at hp; rcases hp with rfl | rfl <;> grind)
+    (by intro p hp; simp at hp; rcases hp with rfl | rfl <;> simp)
+    (by intro p hp; simp at hp; rcases hp with rfl | rfl <;> simp)
+
+/-- with a negative value the sparse route leaves the definition (and hence the dense route) -/
+theorem arrSoergelSparse_ne_def_negative :
+    arrSoergelSparse [(0, 1)] [(1, -1)] = 0 ∧ soergelDef [(0, 1)] [(1, -1)] = -1 := by
+  constructor
+  · simp [arrSoergelSparse, sortRow, rowCols, uniq, insertU, mergeSD]
+    grind
+  · simp [soergelDef, unionCols, uniq, insertU, sumQ, rowVal, lookupQ, absQ, maxQ]
+    grind
+
+theorem arrCosine_eq_def (x y : Row) : arrCosine x y = cosineDef x y := rfl
+
+/-- `fpCosine` is the cosine definition on the rows of the two fingerprints -/
+theorem fp_eq_def_cosine (f g : Fp) (hf : f.WF) (hg : g.WF) :
+    fpCosine f g = cosineDef (cntRow f) (cntRow g) := by
+  unfold fpCosine cosineDef
+  rw [fpDot_eq_dotQ f g hf hg, fpSq_eq_dotQ f hf, fpSq_eq_dotQ g hg]
+
+/-- `fpPearson` is the Pearson definition on the rows, for fingerprints of equal length -/
+theorem fp_eq_def_pearson (f g : Fp) (hf : f.WF) (hg : g.WF) (hb : f.bits = g.bits) :
+    fpPearson f g = pearsonDef f.bits (cntRow f) (cntRow g) := by
+  unfold fpPearson pearsonDef
+  rw [fpDot_eq_dotQ f g hf hg, fpSq_eq_dotQ f hf, fpSq_eq_dotQ g hg, fpSumC_eq_rowSum f hf,
+    fpSumC_eq_rowSum g hg, ← hb]
+
+theorem bitRow_eq_cntRow (f : Fp) (h : f.kind = .bit) : bitRow f = cntRow f := (cntRow_bit f h).symm
+
+/-- `fpSoergel` is the Soergel definition on the rows, whatever the kinds -/
+theorem fp_eq_def_soergel (f g : Fp) (hf : f.WF) (hg : g.WF) :
+    fpSoergel f g = soergelDef (cntRow f) (cntRow g) := by
+  by_cases hk : f.kind = .bit ∧ g.kind = .bit
+  · rw [fp_eq_def_soergel_bit f g hf hg hk.1 hk.2, bitRow_eq_cntRow f hk.1, bitRow_eq_cntRow g hk.2]
+  · unfold fpSoergel
+    rw [if_neg hk, soergelDef_eq]
+    unfold colSumMax colSumAbs
+    rw [unionCols_cntRow]
+    have e1 : (uniq (f.idx ++ g.idx)).map (fun i => maxQ (rowVal (cntRow f) i) (rowVal (cntRow g) i))
+        = (uniq (f.idx ++ g.idx)).map (fun i => maxQ (f.count i) (g.count i)) :=
+      List.map_congr_left (fun k _ => by rw [rowVal_cntRow f hf, rowVal_cntRow g hg])
+    have e2 : (uniq (f.idx ++ g.idx)).map (fun i => absQ (rowVal (cntRow f) i - rowVal (cntRow g) i))
+        = (uniq (f.idx ++ g.idx)).map (fun i => absQ (f.count i - g.count i)) :=
+      List.map_congr_left (fun k _ => by rw [rowVal_cntRow f hf, rowVal_cntRow g hg])
+    rw [e1, e2]
+    simp only
+    by_cases hu : uniq (f.idx ++ g.idx) = []
+    · rw [if_pos hu, hu]; simp [sumQ]
+    · rw [if_neg hu]
+
+theorem wf_example_count : Fp.WF ⟨.count, 8, 0, [1, 2], [(1, 3), (2, 1)]⟩ := by
+  refine ⟨by decide, by decide, ?_, ?_⟩
+  · intro h; exact absurd h (by decide)
+  · intro _; rfl
+
+example : fpSoergel ⟨.count, 8, 0, [1, 2], [(1, 3), (2, 1)]⟩ ⟨.bit, 8, 0, [2, 5], []⟩
+    = soergelDef (cntRow ⟨.count, 8, 0, [1, 2], [(1, 3), (2, 1)]⟩) (cntRow ⟨.bit, 8, 0, [2, 5], []⟩) :=
+  fp_eq_def_soergel _ _ wf_example_count (wf_example_bit _ (by decide) (by decide))
+
+example : fpPearson ⟨.count, 8, 0, [1, 2], [(1, 3), (2, 1)]⟩ ⟨.bit, 8, 0, [2, 5], []⟩
+    = pearsonDef 8 (cntRow ⟨.count, 8, 0, [1, 2], [(1, 3), (2, 1)]⟩) (cntRow ⟨.bit, 8, 0, [2, 5], []⟩) :=
+  fp_eq_def_pearson _ _ wf_example_count (wf_example_bit _ (by decide) (by decide)) rfl
 
 end E3fpVerif.Props.C06
